@@ -824,49 +824,6 @@ package tbtc
 //@   loop 2 invariant [no-match-in-the-outputs-already-searched] forall o int :: 0 <= o && o < rangeidx2 ==> !((bytesEqual(@txOf(btcChain, txHashes[i]).Outputs[o].PublicKeyScript, walletP2PKH) || bytesEqual(@txOf(btcChain, txHashes[i]).Outputs[o].PublicKeyScript, walletP2WPKH)) && @utxoHashOf(bridgeChain, @txOf(btcChain, txHashes[i]).Hash(), o, @txOf(btcChain, txHashes[i]).Outputs[o].Value) == walletChainData.MainUtxoHash)
 //@   assert call:Errorf@6 : [not-found-only-if-no-wallet-output-of-the-history-matches] forall k int, o int :: 0 <= k && k < len(txHashes) && 0 <= o && o < len(@txOf(btcChain, txHashes[k]).Outputs) ==> !((bytesEqual(@txOf(btcChain, txHashes[k]).Outputs[o].PublicKeyScript, walletP2PKH) || bytesEqual(@txOf(btcChain, txHashes[k]).Outputs[o].PublicKeyScript, walletP2WPKH)) && @utxoHashOf(bridgeChain, @txOf(btcChain, txHashes[k]).Hash(), o, @txOf(btcChain, txHashes[k]).Outputs[o].Value) == walletChainData.MainUtxoHash)
 
-// >>> generated by tools/gen_unmarshal_contracts.py (do not edit by hand)
-// C19 safety sweep: decoding any byte string returns an error or a value, and never panics.
-//@ func signer.Unmarshal
-//@   property C19
-//@   opt noframe 1
-//@   opt safe index slice div nil typeassert
-//@   requires s != nil
-//@ func signingDoneMessage.Unmarshal
-//@   property C19
-//@   opt noframe 1
-//@   opt safe index slice div nil typeassert
-//@   requires sdm != nil
-//@ func coordinationMessage.Unmarshal
-//@   property C19
-//@   opt noframe 1
-//@   opt safe index slice div nil typeassert
-//@   requires cm != nil
-//@ func HeartbeatProposal.Unmarshal
-//@   property C19
-//@   opt noframe 1
-//@   opt safe index slice div nil typeassert
-//@   requires hp != nil
-//@ func DepositSweepProposal.Unmarshal
-//@   property C19
-//@   opt noframe 1
-//@   opt safe index slice div nil typeassert
-//@   requires dsp != nil
-//@ func RedemptionProposal.Unmarshal
-//@   property C19
-//@   opt noframe 1
-//@   opt safe index slice div nil typeassert
-//@   requires rp != nil
-//@ func MovingFundsProposal.Unmarshal
-//@   property C19
-//@   opt noframe 1
-//@   opt safe index slice div nil typeassert
-//@   requires mfp != nil
-//@ func MovedFundsSweepProposal.Unmarshal
-//@   property C19
-//@   opt noframe 1
-//@   opt safe index slice div nil typeassert
-//@   requires mfsp != nil
-// <<< generated (unmarshal)
 
 // ---------------------------------------------------------------------------
 // C38: wallet registry (tbtc side). Storage is written before memory, memory
@@ -879,11 +836,32 @@ package tbtc
 //@ ghost saves int
 //@ ghost archives int
 //@ ghost lastArchivedKey string
+//@ ghost signersDecoded int
+//@ ghost signersKeyed int
 //@ func getWalletStorageKey
 //@   property C38
 //@   opt noframe 1
 //@   opt safe none
 //@   defines @storageKeyOf(walletPublicKey)
+//@   modifies ghost.signersKeyed
+//@   yields ghost.signersKeyed = old(ghost.signersKeyed) + 1
+//@   ensures ghost.signersKeyed == old(ghost.signersKeyed) + 1
+
+// Restart: every key share file that reads and decodes is filed under its
+// wallet's storage key - none is skipped (signersDecoded counts successful
+// signer.Unmarshal calls, signersKeyed the storage keys computed; the loader
+// keeps them equal in every iteration, and the key is the decoded signer's).
+//@ func walletStorage.loadSigners
+//@   property C38
+//@   opt noframe 1
+//@   lit 1
+//@     opt noframe 1
+//@     modifies ghost.signersDecoded, ghost.signersKeyed
+//@     assert call:getWalletStorageKey : [a-decoded-signer-is-filed-under-its-own-wallet-key] arg0 == signer.wallet.publicKey
+//@     loop 1 invariant ghost.signersDecoded - old(ghost.signersDecoded) == ghost.signersKeyed - old(ghost.signersKeyed)
+//@     ensures [every-decoded-signer-is-filed] ghost.signersDecoded - old(ghost.signersDecoded) == ghost.signersKeyed - old(ghost.signersKeyed)
+//@   lit 2
+//@     opt noframe 1
 //@ assume func github.com/keep-network/keep-core/pkg/bitcoin.PublicKeyHash
 //@   ensures result == @pkhOf(arg0)
 //@ assume func walletRegistry.calculateWalletIdFunc
@@ -933,27 +911,12 @@ package tbtc
 // the totals of the inputs added and outputs added so far, txIns / txOuts their
 // counts, txLastIn / txLastOut the last added input UTXO / output.
 // ---------------------------------------------------------------------------
-//@ ghost txIn int
-//@ ghost txOut int
-//@ ghost txIns int
-//@ ghost txOuts int
-//@ ghost txLastIn ref
-//@ ghost txLastOut ref
 //@ spec func p2wpkhOf(h [20]byte) bitcoin.Script
 //@ assume func github.com/keep-network/keep-core/pkg/bitcoin.NewTransactionBuilder
 //@   modifies ghost.txIn, ghost.txOut, ghost.txIns, ghost.txOuts, alloc
 //@   ensures result != nil && ghost.txIn == 0 && ghost.txOut == 0 && ghost.txIns == 0 && ghost.txOuts == 0
-//@ assume func github.com/keep-network/keep-core/pkg/bitcoin.TransactionBuilder.AddPublicKeyHashInput
-//@   modifies ghost.txIn, ghost.txIns, ghost.txLastIn
-//@   ensures result == nil ==> ghost.txIn == old(ghost.txIn) + utxo.Value && ghost.txIns == old(ghost.txIns) + 1 && ghost.txLastIn == utxo
-//@   ensures result != nil ==> ghost.txIn == old(ghost.txIn) && ghost.txIns == old(ghost.txIns)
-//@ assume func github.com/keep-network/keep-core/pkg/bitcoin.TransactionBuilder.AddScriptHashInput
-//@   modifies ghost.txIn, ghost.txIns, ghost.txLastIn
-//@   ensures result == nil ==> ghost.txIn == old(ghost.txIn) + utxo.Value && ghost.txIns == old(ghost.txIns) + 1 && ghost.txLastIn == utxo
-//@   ensures result != nil ==> ghost.txIn == old(ghost.txIn) && ghost.txIns == old(ghost.txIns)
-//@ assume func github.com/keep-network/keep-core/pkg/bitcoin.TransactionBuilder.AddOutput
-//@   modifies ghost.txOut, ghost.txOuts, ghost.txLastOut
-//@   ensures ghost.txOut == old(ghost.txOut) + output.Value && ghost.txOuts == old(ghost.txOuts) + 1 && ghost.txLastOut == output
+// (AddPublicKeyHashInput / AddScriptHashInput: contracts checked against their bodies in pkg/bitcoin.)
+// (AddOutput: contract checked against its body in pkg/bitcoin.)
 //@ assume func github.com/keep-network/keep-core/pkg/bitcoin.TransactionBuilder.TotalInputsValue
 //@   ensures result == ghost.txIn
 //@ assume func github.com/keep-network/keep-core/pkg/bitcoin.PayToWitnessPublicKeyHash
@@ -1026,3 +989,83 @@ package tbtc
 // (proved above for the only implementation, withRedemptionTotalFee)
 //@ assume func assembleRedemptionTransaction:feeDistribution
 //@   ensures len(result) == len(arg0)
+
+
+// C13 (tECDSA DKG result signer used by the tbtc node): the ResultSigner the
+// signing states consult answers with the chain verifier's verdict on exactly
+// the hash, signature and public key carried by this message - nothing cached
+// from another message stands in for it.
+// (sigValidB and the VerifyWithPublicKey contract are those of pkg/beacon/dkg/result.)
+//@ func dkgResultSigner.VerifySignature
+//@   property C13
+//@   opt noframe 1
+//@   requires drs != nil && signedResult != nil
+//@   ensures [answer-is-the-verifier-verdict-on-this-hash-signature-and-key] err == nil ==> result0 == @sigValidB(@signingOf(drs.chain), signedResult.ResultHash[:], signedResult.Signature, signedResult.PublicKey)
+//@ func inactivityClaimSigner.VerifySignature
+//@   property C13
+//@   opt noframe 1
+//@   requires ics != nil && signedClaim != nil
+//@   ensures [answer-is-the-verifier-verdict-on-this-hash-signature-and-key] err == nil ==> result0 == @sigValidB(@signingOf(ics.chain), signedClaim.ClaimHash[:], signedClaim.Signature, signedClaim.PublicKey)
+
+// >>> generated by tools/gen_unmarshal_contracts.py (do not edit by hand)
+// C19 safety sweep: decoding any byte string returns an error or a value, and never panics.
+//@ func signer.Unmarshal
+//@   property C19
+//@   opt noframe 1
+//@   opt safe index slice div nil typeassert
+//@   requires s != nil
+//@   modifies ghost.signersDecoded
+//@   yields ghost.signersDecoded = old(ghost.signersDecoded) + ite(result0 == nil, 1, 0)
+//@   ensures ghost.signersDecoded == old(ghost.signersDecoded) + ite(result == nil, 1, 0)
+//@ func signingDoneMessage.Unmarshal
+//@   property C19
+//@   opt noframe 1
+//@   opt safe index slice div nil typeassert
+//@   requires sdm != nil
+//@ func coordinationMessage.Unmarshal
+//@   property C19
+//@   opt noframe 1
+//@   opt safe index slice div nil typeassert
+//@   requires cm != nil
+//@ func HeartbeatProposal.Unmarshal
+//@   property C19
+//@   opt noframe 1
+//@   opt safe index slice div nil typeassert
+//@   requires hp != nil
+//@ func DepositSweepProposal.Unmarshal
+//@   property C19
+//@   opt noframe 1
+//@   opt safe index slice div nil typeassert
+//@   requires dsp != nil
+//@ func RedemptionProposal.Unmarshal
+//@   property C19
+//@   opt noframe 1
+//@   opt safe index slice div nil typeassert
+//@   requires rp != nil
+//@ func MovingFundsProposal.Unmarshal
+//@   property C19
+//@   opt noframe 1
+//@   opt safe index slice div nil typeassert
+//@   requires mfp != nil
+//@ func MovedFundsSweepProposal.Unmarshal
+//@   property C19
+//@   opt noframe 1
+//@   opt safe index slice div nil typeassert
+//@   requires mfsp != nil
+//@ func unmarshalWalletPublicKeyHash
+//@   property C19
+//@   opt noframe 1
+//@   opt safe index slice div nil typeassert
+//@ func unmarshalCoordinationProposal
+//@   property C19
+//@   opt noframe 1
+//@   opt safe index slice div nil typeassert
+//@ func unmarshalPublicKey
+//@   property C19
+//@   opt noframe 1
+//@   opt safe index slice div nil typeassert
+//@ func validateMemberIndex
+//@   property C19
+//@   opt noframe 1
+//@   opt safe index slice div nil typeassert
+// <<< generated (unmarshal)
